@@ -16,7 +16,7 @@
    [check] is the checker of the property itself on the implementation's observation. *)
 From Coq Require Import List Arith Bool Lia.
 Import ListNotations.
-From Onet Require Export Base.Corr Net.RouterClose Net.CloseSeq Net.CloseConc Net.SendClose Net.StartClose.
+From Onet Require Export Base.Corr Net.RouterClose Net.CloseSeq Net.CloseConc Net.SendClose Net.StartClose Net.LocalClose.
 
 (* which variant of the code the correspondence compares with; the integrator flips a
    flag when the corresponding fix commit lands in /repo *)
@@ -381,6 +381,26 @@ Definition agree_ctor_held (held start_ok : bool) (o : sobs) : bool :=
   | None => false
   end.
 
+(* ---- closing an in-memory connection whose peer does not read its backlog ------ *)
+
+(* r messages were read by the peer before its handler blocked, n more were sent and stay
+   unread (both numbers observed); Stop is called; then another user of the same in-memory
+   manager makes a connection.  The observed results are those of the run of Net/LocalClose.v
+   (the code as it is: the forwarder watches closeCh while it pushes; LocalMaxBuffer = 200) on
+   that schedule: every Send returned Ok (the identity the router sends first is not among the
+   observed sends), Stop returned, the other user got the manager's lock. *)
+Definition lres (p : lspc) : ores := match p with LSDone Ok => ROk | LSDone Err => RErr | _ => RPending end.
+
+Definition agree_backlog (r n : nat) (other_ok : bool) (o : robs) : bool :=
+  match lrun false 200 linit (backlog_schedule 200 r n) with
+  | Some s =>
+      list_eqb ores_eqb (tl (map lres (lsenders s))) (o_sends o) &&
+      list_eqb Bool.eqb [match closer s with LCRet Ok => true | _ => false end] (o_stops o) &&
+      Bool.eqb (0 <? others s) other_ok &&
+      negb (o_panic o) && (o_inprogress o =? 0) && (o_late o =? 0)
+  | None => false
+  end.
+
 (* ---- cases ------------------------------------------------------------------ *)
 
 Inductive case :=
@@ -389,7 +409,8 @@ Inductive case :=
 | ServerClose (insts : list nat) (ms : list smacro) (o : sobs)
 | ServerCloseRace (k n oks errs pending : nat) (o : sobs)
 | BlockedSend (nok : nat) (blocked : bool) (o : robs)
-| CtorHeld (held start_ok : bool) (o : sobs).
+| CtorHeld (held start_ok : bool) (o : sobs)
+| LocalBacklog (r n : nat) (other_ok : bool) (o : robs).
 
 Definition agree (c : case) : bool :=
   match c with
@@ -399,6 +420,7 @@ Definition agree (c : case) : bool :=
   | ServerCloseRace k n oks errs pending o => agree_closerace k n oks errs pending o
   | BlockedSend nok b o => agree_blocked nok b o
   | CtorHeld h ok o => agree_ctor_held h ok o
+  | LocalBacklog r n ok o => agree_backlog r n ok o
   end.
 
 Definition mismatches (l : list case) : list nat := mism_idx agree l.
@@ -455,6 +477,7 @@ Definition check (c : case) : list nat :=
   | ServerCloseRace _ _ _ _ _ o => check_server o
   | BlockedSend _ _ o => check_router o
   | CtorHeld _ _ o => check_server o
+  | LocalBacklog _ _ ok o => check_router o ++ clause 6 ok
   end.
 
 Definition violations (l : list case) : list (nat * nat) := viols check l.
